@@ -71,8 +71,17 @@ def crashed(r):
     return None
 
 
-def classify_diff(oa, ob):
+K9_KIND = "extra-wp-same-finding-different-call-path"
+
+
+def classify_diff(oa, ob, ref_all=None):
     """oa: only in subject, ob: only in reference -> coarse kind of disagreement."""
+    if oa and not ob and ref_all is not None and all(k.id in core.WHOLE_PROGRAM_IDS for k, _ in oa):
+        # known finding K9: the same whole-program finding (id, message, primary location) reported a second time with a
+        # different call path, because a partially cached single-job run analyses the re-analysed units in memory as well
+        prim = set((f.id, f.msg, f.locs[0][:3] if f.locs else None) for f in ref_all)
+        if all((k.id, k.msg, k.locs[0][:3] if k.locs else None) in prim for k, _ in oa):
+            return K9_KIND
     ids_a = sorted(set(k.id for k, _ in oa)); ids_b = sorted(set(k.id for k, _ in ob))
     wp = all(k.id in core.WHOLE_PROGRAM_IDS for k, _ in oa + ob)
     strip = lambda k: (k.id, k.severity, k.msg)
@@ -120,3 +129,17 @@ def crash_text(r):
             t = re.sub(r"\d+", "N", t)
             return " (" + t[:80] + ")"
     return ""
+
+
+K8_SIG = "missing-staticFunction (only reported when the whole-program analysis runs from memory)"
+
+
+def split_static_function(oa, ob):
+    """Known finding K8: 'staticFunction' is only computed by the in-memory whole-program analysis. Its absence in a
+    build-dir mode is reported under one constant signature; other differences of the same run are classified on their own.
+    Returns (oa', ob', k8) where k8 is True iff staticFunction findings are missing on the subject side only."""
+    sf_sub = [(f, c) for f, c in oa if f.id == "staticFunction"]
+    sf_ref = [(f, c) for f, c in ob if f.id == "staticFunction"]
+    if sf_ref and not sf_sub:
+        return [x for x in oa if x[0].id != "staticFunction"], [x for x in ob if x[0].id != "staticFunction"], True
+    return oa, ob, False
